@@ -406,6 +406,9 @@ func writeProject(p pProject, dir string) (map[string]string, error) {
 		if regexp.MustCompile(`(^|[^A-Za-z_])time\.`).MatchString(body) {
 			imports = append(imports, `"time"`)
 		}
+		if regexp.MustCompile(`(^|[^A-Za-z_])fmt\.`).MatchString(body) {
+			imports = append(imports, `"fmt"`)
+		}
 		for _, other := range []string{"ctl", "other", "models", "v"} {
 			if other != fb.pkg && regexp.MustCompile(`(^|[^A-Za-z0-9_."])`+other+`\.[A-Z]`).MatchString(body) {
 				imports = append(imports, `"`+projModule+"/"+other+`"`)
@@ -868,6 +871,30 @@ func runProject(p pProject) (out projOut) {
 		out.Counts = append(out.Counts, countNodes())
 	}
 	if p.Repeat > 0 {
+		// another legal history of a long-lived session: questions asked BEFORE the first analysis (they answer with
+		// nothing), then the analysis - which must answer like a session that was never asked anything
+		if p4, err := pipeline.NewGleecePipeline(cfg); err == nil {
+			func() {
+				defer func() {
+					if x := recover(); x != nil {
+						out.Repeats = append(out.Repeats, fmt.Sprintf("early-calls-panic: %v", x))
+					}
+				}()
+				p4.Validate()
+				p4.GenerateIntermediate()
+				if m4, err := p4.Run(); err != nil {
+					out.Repeats = append(out.Repeats, "early-calls-error: "+firstLines(err.Error(), 2))
+				} else {
+					b1, _ := json.Marshal(canonIR(ir))
+					b4, _ := json.Marshal(canonIR(fromDefinitions(cfg, m4, p.Engines)))
+					if string(b1) == string(b4) {
+						out.Repeats = append(out.Repeats, "same")
+					} else {
+						out.Repeats = append(out.Repeats, "different")
+					}
+				}
+			}()
+		}
 		// a brand-new session on the same, unchanged project
 		if p2, err := pipeline.NewGleecePipeline(cfg); err != nil {
 			out.Fresh = "error: " + firstLines(err.Error(), 2)
